@@ -114,15 +114,15 @@ func rulePDF417TextMachine(c *Ctx) {
 	latchUpper := "({SM} && !{M} && {U}) || ({SP} && !{P})"
 	latchPunct := "({SM} && !{M} && !{U} && !{L} && {LA})"
 	want := map[string]string{
-		"26":                               "({SU} && {U} && ch == 32) || ({SL} && {L} && ch == 32)",
-		MustRef("ch - 65").String():        "({SU} && {U} && ch != 32) || ({SL} && !{L} && {U})",
-		MustRef("ch - 97").String():        "{SL} && {L} && ch != 32",
-		"27":                               "({SU} && !{U} && {L}) || ({SL} && !{L} && {U}) || ({SM} && !{M} && !{U} && {L})",
-		"28":                               "({SU} && !{U} && !{L} && {M}) || ({SL} && !{L} && !{U} && {M}) || ({SM} && !{M} && {U})",
-		"29":                               psCond + " || ({SP} && !{P})",
-		"25":                               latchPunct,
-		"idx(global:pdf417.punctMap,ch)":   psCond + " || ({SP} && {P})",
-		"idx(global:pdf417.mixedMap,ch)":   "{SM} && {M}",
+		"26":                             "({SU} && {U} && ch == 32) || ({SL} && {L} && ch == 32)",
+		MustRef("ch - 65").String():      "({SU} && {U} && ch != 32) || ({SL} && !{L} && {U})",
+		MustRef("ch - 97").String():      "{SL} && {L} && ch != 32",
+		"27":                             "({SU} && !{U} && {L}) || ({SL} && !{L} && {U}) || ({SM} && !{M} && !{U} && {L})",
+		"28":                             "({SU} && !{U} && !{L} && {M}) || ({SL} && !{L} && !{U} && {M}) || ({SM} && !{M} && {U})",
+		"29":                             psCond + " || ({SP} && !{P})",
+		"25":                             latchPunct,
+		"idx(global:pdf417.punctMap,ch)": psCond + " || ({SP} && {P})",
+		"idx(global:pdf417.mixedMap,ch)": "{SM} && {M}",
 	}
 	got := map[string]*Cond{}
 	var order []string
@@ -349,10 +349,10 @@ func rulePDF417Latches(c *Ctx) {
 	n.Bind[mP], n.Bind[dataP] = "M", "data"
 	body := hdr.Succs[0]
 	m := map[string]string{
-		"N":    fmt.Sprintf("(nc >= %d || nc == len(data))", cv["min_numeric_count"]),
-		"T":    "(tc >= 5 || tc == len(data))",
-		"TXT":  fmt.Sprint(cv["encText"]),
-		"ONE":  "(B == 1)",
+		"N":   fmt.Sprintf("(nc >= %d || nc == len(data))", cv["min_numeric_count"]),
+		"T":   "(tc >= 5 || tc == len(data))",
+		"TXT": fmt.Sprint(cv["encText"]),
+		"ONE": "(B == 1)",
 	}
 	emitted := map[int64]*Cond{}
 	for _, s := range appendSites(fn) {
@@ -559,9 +559,9 @@ func assumeNoErrors(n *Normer, fn *ssa.Function) *Cond {
 
 func init() {
 	// round 4
-	register("C07", ruleCheckValue)                                      // the drawn Code 39 check character is the one of the check value
-	register("C14", ruleCode128Tables)                                   // the drawn check character's pattern
-	register("C01", ruleConcurrency)                                     // producer/consumer protocol of the QR encoders decides acceptance and the bit stream
+	register("C07", ruleCheckValue)    // the drawn Code 39 check character is the one of the check value
+	register("C14", ruleCode128Tables) // the drawn check character's pattern
+	register("C01", ruleConcurrency)   // producer/consumer protocol of the QR encoders decides acceptance and the bit stream
 	register("C10", ruleConcurrency)
 	register("C13", ruleConcurrency)
 	for _, p := range []string{"C01", "C02", "C03", "C04", "C05", "C06", "C07", "C08"} {
